@@ -28,24 +28,28 @@ MANIFEST = {
 }
 SESSION_NOISE = True      # every shard starts after unrelated session activity (harness.session_noise)
 BUDGET_S = {'quick': 75, 'thorough': 480}
-RULE = ('grid variant x imf option set (4, one with an energy threshold) x interpolation (2) x extrema option set (3) x delivery route (keyword dicts, '
-        '**SiftConfig, get_func partial) x nprocesses (1,2,3) x 3 signals; quick = seeded sample of the grid with every '
+RULE = ('grid variant x imf option set (5, one with an energy threshold, one with a tight iteration budget) x interpolation (2) x extrema option set (4) x delivery route (keyword dicts, '
+        '**SiftConfig, get_func partial, **SiftConfig read back from YAML) x nprocesses (1,2,3) x 3 signals; quick = seeded sample of the grid with every '
         '(variant, route) cell forced, thorough = whole grid; non-trivial = the call produced stage events of all three '
         'stages; distinct by grid cell')
 EXHAUSTIVE = {'quick': False, 'thorough': True}
-EXHAUSTIVE_SCOPE = {'thorough': 'the full grid named in rule (1314 cells incl. the two stage-level helpers) x 3 signals'}
+EXHAUSTIVE_SCOPE = {'thorough': 'the full grid named in rule (3840 cells incl. the two stage-level helpers) x 3 signals'}
 ASSUMPTIONS = ['extrema events issued outside a traced envelope call (amplitude estimation inside the instantaneous-frequency mask estimate) are not sift stages and are ignored']
 
 IMF = [{'stop_method': 'rilling', 'rilling_thresh': (0.1, 0.8, 0.1), 'env_step_size': .5},
        {'stop_method': 'fixed', 'max_iters': 3},
        {'stop_method': 'sd', 'sd_thresh': .05, 'env_step_size': .3},
-       {'stop_method': 'sd', 'sd_thresh': .1, 'energy_thresh': 5}]
+       {'stop_method': 'sd', 'sd_thresh': .1, 'energy_thresh': 5},
+       # a tight iteration budget: some extractions (of some noise realisations) exceed it and the call raises - on that path,
+       # too, no supplied option may be replaced by a default
+       {'stop_method': 'sd', 'sd_thresh': 2e-3, 'max_iters': 12}]
 ENV = [{'interp_method': 'pchip'}, {'interp_method': 'mono_pchip'}]
 EXT = [{'pad_width': 3}, {'pad_width': 1, 'parabolic_extrema': True},
-       {'pad_width': 2, 'mag_pad_opts': {'mode': 'mean', 'stat_length': 2}}]
+       {'pad_width': 2, 'mag_pad_opts': {'mode': 'mean', 'stat_length': 2}},
+       {'pad_width': 2, 'mag_pad_opts': {'mode': 'mean'}}]      # a complete np.pad keyword set that has no stat_length
 VARIANTS = ['sift', 'mask_sift:zc', 'mask_sift:if', 'mask_sift:float', 'mask_sift:list', 'ensemble_sift',
             'complete_ensemble_sift', 'sift_second_layer', 'mask_sift_second_layer', 'get_next_imf_mask', 'get_mask_freqs']
-ROUTES = ['kw', 'cfg', 'func']
+ROUTES = ['kw', 'cfg', 'func', 'yaml']     # yaml: the configuration object written to YAML text, read back, then unpacked
 NPROC = [1, 2, 3]
 
 
@@ -119,6 +123,7 @@ def make_signal(k, n=128):
 
 def run_cell(ctx, tr, cell, sigk):
     from emd import sift as S
+    from emd.support import EMDSiftCovergeError
     v, route, npr, i, e, xi = cell
     I, E, X = dict(IMF[i]), dict(ENV[e]), dict(EXT[xi])
     if 'mag_pad_opts' in X:
@@ -159,6 +164,10 @@ def run_cell(ctx, tr, cell, sigk):
         for k, val in X.items():
             cfg['extrema_opts/' + k] = val
         wantI, wantE, wantX = dict(cfg['imf_opts']), dict(cfg['envelope_opts']), dict(cfg['extrema_opts'])
+        if 'mag_pad_opts' in X:
+            wantX['mag_pad_opts'] = dict(X['mag_pad_opts'])
+        if route == 'yaml':
+            cfg = S.SiftConfig.from_yaml_stream(cfg.to_yaml_text())
 
     np.random.seed(12345)
     ret = None
@@ -197,10 +206,14 @@ def run_cell(ctx, tr, cell, sigk):
                 else:
                     for k, val in extra.items():
                         cfg[k] = val
-                    if route == 'cfg':
+                    if route in ('cfg', 'yaml'):
                         ret = func(x, **cfg)
                     else:
                         ret = cfg.get_func()(x)
+    except EMDSiftCovergeError:
+        # a documented outcome (only the tight-budget option set produces it): the stage events issued up to here are judged
+        ctx.count('calls_ending_in_a_convergence_error')
+        ret = None
     except WatchdogTimeout:
         ctx.count('watchdog')
         ctx.case(digest(cell), False)
